@@ -336,7 +336,65 @@ def run(ctx):
         else:
             ctx.bad('R11a', key, 'publisher writes [%s] but the stream constructor reads [%s]' % (show_stream(norm_stream(wsig))[:200], show_stream(norm_stream(rsig))[:200]), r)
     ctx.floor('R11a-stream', m, 11)
+    r11f(ctx)
     r11b(ctx)
+
+
+def r11f(ctx):
+    """nothing read is dropped: in the stream constructors an element that is read into a local
+    inside a loop is stored into a member of the object on every path through that iteration
+    (a `continue` or a conditional in front of the push_back loses elements that were exported)"""
+    prog = ctx.prog
+
+    def rootloc(l):
+        while isinstance(l, tuple) and l[0] in ('f', 'e', 'stream'):
+            l = l[1]
+        return l
+    n = 0
+    for wq, cls in STREAM_PAIRS:
+        readers = [f for f in prog.by_q.get(cls + '::' + cls.split('::')[-1], []) if f['kind'] == 'ctor' and any('istream' in p['t'] for p in f['params'])]
+        for r in readers[:1]:
+            a = ctx.analysis(r)
+            T = a.T
+            byid = {x.id: x for x in a.cfg.rpo}
+            for nid, ev in sorted(a.all_events('rcv'), key=lambda x: (x[1][3], x[0])):
+                if ev[1] is None or rootloc(ev[1])[0] == 'm':
+                    continue
+                inloop = [h for h, body in a.loop_nodes.items() if nid in body]
+                if not inloop:
+                    continue        # a count or flag read once; it steers the loops below
+                w = ev[2]
+                wn = T.node(w)
+                stores = set()
+                for n2, e2 in a.all_events('write'):
+                    if rootloc(e2[1])[0] == 'm' and (e2[2] == w or T.contains(e2[2], lambda z: z == wn)):
+                        stores.add(n2)
+                for n2, e2 in a.all_events('mcall'):
+                    if e2[6] and rootloc(e2[6])[0] == 'm' and any(x == w or T.contains(x, lambda z: z == wn) for x in e2[3]):
+                        stores.add(n2)
+                n += 1
+                key = 'R11f:%s:%s' % (cls, ev[1][2] if ev[1][0] == 'v' else T.show(w, 2))
+                heads = set(inloop)
+                seen = set()
+                stack = list(byid[nid].succ) if nid not in stores else []
+                lost = None
+                while stack:
+                    x = stack.pop()
+                    if x.id in seen or x.id in stores:
+                        continue
+                    seen.add(x.id)
+                    if x.id in heads or (x.kind == 'exit' and x.meta.get('kind') != 'throw'):
+                        lost = x
+                        break
+                    stack.extend(x.succ)
+                if not stores:
+                    ctx.bad('R11f', key, 'an element read from the stream inside a loop is never stored in the object', r, line=ev[3])
+                elif lost is not None:
+                    ctx.bad('R11f', key, 'an element read from the stream can reach the next iteration (line %d) without being stored in the object: what the publisher '
+                            'wrote is read but not kept' % lost.line, r, line=ev[3])
+                else:
+                    ctx.ok('R11f', key, 'every element read in the loop is stored in the object before the iteration ends', r, line=ev[3])
+    ctx.floor('R11f', n, 6)
 
 
 def norm_stream(sig):
